@@ -230,6 +230,12 @@ def run(model, rep, tier):
               f"no reserve exactly when no TSIG will be written (both arms test `{next(iter(subj_r), '?')}`)",
               f"the reserve is skipped under {sorted(subj_r)} but the TSIG is written under {sorted(subj_w)}: a message whose TSIG came off the wire (tsig set, want_tsig_sign False) is re-rendered with 0 octets "
               "reserved for it, so TooBig escapes near the limit and the padded length is off by the TSIG size", stmt="reserve-guard")
+    ue8 = model.func("dns.message.Message.use_edns")
+    st8 = [x for x in ast.walk(ue8.node) if isinstance(x, ast.Assign) and any(src(t_) == "self.request_payload" for t_ in x.targets)]
+    cond8 = [n for n in ast.walk(ue8.node) if isinstance(n, ast.If) and any(a[0] == "request_payload" for a in atoms(normalise_compare(n.test))) and any(any(y is s_ for y in ast.walk(b)) for s_ in st8 for b in n.body + n.orelse)]
+    rep.check(bool(st8) and not cond8, "R-08.8", ue8.qualname, where(ue8, cond8[0] if cond8 else (st8[0] if st8 else ue8.node)), "the requester's payload is stored whether or not it was defaulted",
+              "`self.request_payload = ...` sits inside the `if request_payload is None` arm: an explicitly given request_payload (what make_response passes) is dropped, so the default limit of the "
+              "response is 65535 and an over-long reply is rendered whole", stmt="request-payload-stored")
     mr = model.func("dns.message.make_response")
     ue = [c for c in ast.walk(mr.node) if isinstance(c, ast.Call) and isinstance(c.func, ast.Attribute) and c.func.attr == "use_edns"]
     uef = model.func("dns.message.Message.use_edns")
@@ -280,6 +286,8 @@ def run(model, rep, tier):
 
 
 WITNESSES = [
+    {"id": "c08-request-payload-stored-only-when-defaulted", "rule": "R-08.8", "file": "dns/message.py", "expect": "fires",
+     "old": "                request_payload = payload\n            self.request_payload = request_payload", "new": "                request_payload = payload\n                self.request_payload = request_payload"},
     {"id": "c08-tsig-reserve-under-want-sign", "rule": "R-08.8", "file": "dns/message.py", "expect": "fires",
      "old": "        if not self.tsig:\n            return 0", "new": "        if not self.want_tsig_sign:\n            return 0"},
     {"id": "c08-placeholder-mac-from-argument", "rule": "R-08.8", "file": "dns/message.py", "expect": "fires",
